@@ -187,7 +187,7 @@ func runC19(c *report.Ctx) {
 	ruleClassGate(c)
 
 	// ---- (7) ready set: a half-removed wallet must not receive credits (its balance row is gone) --------
-	ruleReadySet(c)
+	ruleReadySet(c, true, true)
 }
 
 func firstDefer(f *ssa.Function) *ssa.Defer {
